@@ -15,9 +15,10 @@ canon obs  := <res> <ref>;<x|c>;P:<pw>:<prog>:<-o values, sorted>:<-i values>:<p
                   | <ref>;<x|c>;R:<args>
 arg    := s/<str> | p/<ref>/<str>        ref := <idx>+*     (one `+` per `.clone()`)
 ```
-`<str>` is lower-case hex of the UTF-8 bytes (`-` = empty string); `_` = not set / None;
+`<str>` is lower-case hex of the UTF-8 bytes (`-` = empty string); an empty host field = not set
+(so that dropping an attribute makes the case line shorter); `_` = None in observations;
 `.` = empty list.  A subclass host (`sup` = j) lists its *resolved* attributes: a field may be
-`_` only if it is `_` in host j as well.  Parsing rejects anything else (`bad-op`). -/
+unset only if it is unset in host j as well.  Parsing rejects anything else (`bad-op`). -/
 
 namespace Ssh.Wire
 
@@ -26,6 +27,10 @@ def strOut (s : Str) : String := _root_.Wire.chars s
 
 def optOf {α} (f : String → Option α) (s : String) : Option (Option α) :=
   if s == "_" then some none else (f s).map some
+
+/-- an attribute field of a host token: empty = not set -/
+def fieldOf {α} (f : String → Option α) (s : String) : Option (Option α) :=
+  if s == "" then some none else (f s).map some
 
 def optOut {α} (f : α → String) : Option α → String
   | none => "_"
@@ -69,14 +74,14 @@ def host (pm : Bool) (acc : List Host) (tok : String) : Option Host :=
     pure { h with orig := i }
   | ["H", k, sup, via, user, wd, chost, port, hk, opts, au, mux] => do
     let k ← kind k
-    let sup ← optOf String.toNat? sup
-    let via ← optOf String.toNat? via
-    let user ← optOf str user
+    let sup ← fieldOf String.toNat? sup
+    let via ← fieldOf String.toNat? via
+    let user ← fieldOf str user
     let wd ← str wd
     let cfg : Cfg := { user := if k == .ssh || k == .paramiko then user else none,
-                       host := ← optOf str chost, port := ← optOf String.toNat? port,
-                       hk := ← optOf _root_.Wire.bool hk, opts := ← optOf (listOf str) opts,
-                       auth := ← optOf (auth i) au, mux := ← optOf _root_.Wire.bool mux }
+                       host := ← fieldOf str chost, port := ← fieldOf String.toNat? port,
+                       hk := ← fieldOf _root_.Wire.bool hk, opts := ← fieldOf (listOf str) opts,
+                       auth := ← fieldOf (auth i) au, mux := ← fieldOf _root_.Wire.bool mux }
     let remote := k == .ssh || k == .paramiko
     -- lab-hosts carry a user name and no connection attributes
     if !remote && (user.isNone || cfg != {}) then none
